@@ -734,13 +734,15 @@ def recipe_problems(S):
         if S.contraction_cores:
             from cotengra.contract import extract_contractions
 
+            ncores = len(S.contraction_cores)
             for key, fn in S.contraction_cores.items():
                 cs = getattr(fn, "contractions", None)
                 if cs is None:
                     continue
                 order, prefer_einsum = key[1], key[2]
                 try:
-                    fresh = extract_contractions(clone(S2), order, prefer_einsum)
+                    # (S2 is not needed afterwards when there is a single core)
+                    fresh = extract_contractions(S2 if ncores == 1 else clone(S2), order, prefer_einsum)
                 except Exception as e:  # noqa: BLE001
                     probs.append(f"re-extracting contractions raised {type(e).__name__}")
                     continue
